@@ -98,7 +98,11 @@ fn run(args: &[String]) -> ! {
         }));
     }
 
-    let ctx = props::Ctx { id: id.clone(), tier, seed, child: child_out.is_some() };
+    let shard = args.iter().position(|a| a == "--shard").and_then(|i| match (args.get(i + 1).and_then(|x| x.parse().ok()), args.get(i + 2).and_then(|x| x.parse().ok())) {
+        (Some(k), Some(n)) => Some((k, n)),
+        _ => None,
+    });
+    let ctx = props::Ctx { id: id.clone(), tier, seed, child: child_out.is_some(), shard };
     let mut rep = Report::new(&id, tier, seed);
     rep.extra.push(("oracle_selfcheck".into(), Json::obj().with("best_of_n_agreement_hands", Json::U(n)).with("p7_covering_pairs", Json::U(p7)).with("p6_covering_pairs", Json::U(p6))));
     (prop.run)(&ctx, &mut rep);
